@@ -16,7 +16,10 @@ TCrash   == IsEvent("Crash") /\ UNCHANGED vars
 TRecover == IsEvent("Recover") /\ RecoverAllowed(R.res, R.complete, R.bits, R.region, R.served, R.cacheok) /\ UNCHANGED vars
 TResume  == IsEvent("Resume") /\ ResumeAllowed(R.res, R.complete, R.cacheok) /\ UNCHANGED vars
 
-TraceNext == TReset \/ TCrash \/ TRecover \/ TResume
+\* the committed blob is evicted (DeleteTorrent) and requested again: the same acceptance as after the restart
+TEvict   == IsEvent("Evict") /\ EvictAllowed(R.res, R.served) /\ UNCHANGED vars
+
+TraceNext == TReset \/ TCrash \/ TRecover \/ TResume \/ TEvict
 TraceSpec == TraceInit /\ [][TraceNext]_tvars
 
 HW == TLCSet(1, IF TLCGet(1) < l THEN l ELSE TLCGet(1))
